@@ -8,7 +8,7 @@ use serde_json::{json, Value};
 use std::fs::{self, File};
 use std::io::{BufRead, BufReader, BufWriter, Write};
 use std::path::{Path, PathBuf};
-use tftpd::{ErrorCode, Opcode, OptionType, Packet, TransferOption, Window};
+use tftpd::{ClientConfig, Config, ErrorCode, Mode, Opcode, OptionType, Packet, TransferOption, Window};
 use vharness::{jbool, jint, jstr};
 
 fn read_lines(path: &str) -> Vec<Value> {
@@ -189,6 +189,45 @@ fn codec_vector(v: &Value, sid: usize, out: &mut Vec<Value>) {
     }
 }
 
+fn dir_name(p: &Path, cwd: &Path) -> String {
+    if p == cwd {
+        "CWD".to_string()
+    } else {
+        p.to_string_lossy().to_string()
+    }
+}
+
+/// One vector {"who": "server"|"client", "args": [...]}: the real parser's verdict and fields.
+fn cli_vector(v: &Value, sid: usize, cwd: &Path, out: &mut Vec<Value>) {
+    let args: Vec<String> = v["args"]
+        .as_array()
+        .map(|a| a.iter().map(|x| x.as_str().unwrap_or("").to_string()).collect())
+        .unwrap_or_default();
+    let who = jstr(v, "who", "server").to_string();
+    let a2 = args.clone();
+    let res = if who == "server" {
+        match std::panic::catch_unwind(move || Config::new(a2.into_iter())) {
+            Ok(Ok(c)) => json!({"err":false,"ip":c.ip_address.to_string(),"port":c.port.to_string(),
+                "dir":dir_name(&c.directory,cwd),"rd":dir_name(&c.receive_directory,cwd),
+                "sd":dir_name(&c.send_directory,cwd),"single":c.single_port,"ro":c.read_only,
+                "dup":c.duplicate_packets.to_string(),"ow":c.overwrite,"clean":c.clean_on_error}),
+            Ok(Err(_)) => json!({"err":true}),
+            Err(_) => json!({"err":true,"panic":true}),
+        }
+    } else {
+        match std::panic::catch_unwind(move || ClientConfig::new(a2.into_iter())) {
+            Ok(Ok(c)) => json!({"err":false,"ip":c.remote_ip_address.to_string(),"port":c.port.to_string(),
+                "blk":c.blocksize.to_string(),"win":c.windowsize.to_string(),"tmo":c.timeout.as_secs().to_string(),
+                "mode":if c.mode == Mode::Upload {"upload"} else {"download"},
+                "rd":c.receive_directory.to_string_lossy(),"file":c.file_path.to_string_lossy(),
+                "clean":c.clean_on_error}),
+            Ok(Err(_)) => json!({"err":true}),
+            Err(_) => json!({"err":true,"panic":true}),
+        }
+    };
+    out.push(json!({"e":"cli","sid":sid,"who":who,"args":args,"res":res}));
+}
+
 fn main() {
     let args: Vec<String> = std::env::args().collect();
     if args.len() < 4 {
@@ -197,14 +236,29 @@ fn main() {
     }
     std::panic::set_hook(Box::new(|_| {}));
     let input = read_lines(&args[2]);
+    let out_path = fs::canonicalize(Path::new(&args[3]).parent().unwrap_or(Path::new(".")))
+        .unwrap()
+        .join(Path::new(&args[3]).file_name().unwrap());
     let dir = PathBuf::from(format!("../work/pure/p{}", std::process::id()));
     fs::create_dir_all(&dir).unwrap();
+    let dir = fs::canonicalize(&dir).unwrap();
     let mut out: Vec<Value> = Vec::new();
     match args[1].as_str() {
         "window" => {
             for (i, s) in input.iter().enumerate() {
                 window_script(s, i + 1, &dir, &mut out);
             }
+        }
+        "cli" => {
+            // directories the token universe refers to: D1, D2 exist, nothing else does
+            let cwd = fs::canonicalize(&dir).unwrap();
+            fs::create_dir_all(cwd.join("D1")).unwrap();
+            fs::create_dir_all(cwd.join("D2")).unwrap();
+            std::env::set_current_dir(&cwd).unwrap();
+            for (i, s) in input.iter().enumerate() {
+                cli_vector(s, i + 1, &cwd, &mut out);
+            }
+            std::env::set_current_dir("/").unwrap();
         }
         "codec" => {
             for (i, s) in input.iter().enumerate() {
@@ -217,7 +271,7 @@ fn main() {
         }
     }
     let _ = fs::remove_dir_all(&dir);
-    let mut w = BufWriter::new(File::create(&args[3]).expect("trace file"));
+    let mut w = BufWriter::new(File::create(&out_path).expect("trace file"));
     for ev in &out {
         serde_json::to_writer(&mut w, ev).unwrap();
         w.write_all(b"\n").unwrap();
